@@ -481,7 +481,7 @@ def gen_singular_segs(rng, names=None, maxlen=2):
 
 LITERALS = [None, True, False, 0, 1, 2, -1, 1.0, 1.5, 0.0, "", "a", "b", "ab", "0", "1", "é", 10, "A"]
 CMP_OPS = ["==", "!=", "<", "<=", ">", ">="]
-PATTERNS = ["a", "a.*", "[ab]+", "a|b", ".", "(ab)*", "[^a]", "a?b", "é", "1"]
+PATTERNS = ["a", "a.*", "[ab]+", "a|b", ".", "(ab)*", "[^a]", "a?b", "é", "1", "a|ab", "(a|ab)(c|bcd)?", "a|ab|abc", "(a|ab)*"]
 
 
 def gen_comparable(rng, depth):
